@@ -43,6 +43,8 @@ let () =
          | ["imod"; tb; ts; a; b] -> show (run_imod (ity tb ts) (z_of_hex a) (z_of_hex b))
          | ["tdiv"; tb; ts; a; b] -> show (run_tdiv (ity tb ts) (z_of_hex a) (z_of_hex b))
          | ["tmod"; tb; ts; a; b] -> show (run_tmod (ity tb ts) (z_of_hex a) (z_of_hex b))
+         | ["tdivm"; sb; ss; ub; us; tb; ts; a; b] -> show (run_tdivm (ity sb ss) (ity ub us) (ity tb ts) (z_of_hex a) (z_of_hex b))
+         | ["tmodm"; sb; ss; ub; us; tb; ts; a; b] -> show (run_tmodm (ity sb ss) (ity ub us) (ity tb ts) (z_of_hex a) (z_of_hex b))
          | ["deref"; p] -> show (run_deref (z_of_hex p))
          | ["lib"; op; tb; ts; i; size; impl] ->
              show (run_lib (op_of op) (ity tb ts) (z_of_hex i) (z_of_hex size) (z_of_hex impl))
